@@ -16,6 +16,7 @@ EXPLANATION = (
     "that recurses into an array/tuple pattern visits all of its sub-pattern fields (prefix, spread, suffix). Not decided: recursion results, broadcast of "
     "scalar functions, option coalescing."
     " (R5) inside the tail-call loop of execute_user_function only the loop-carried argument vector is read, never the initial call's arguments."
+    ' (R7) both operands of every pattern/value zip in the matcher are plain forward iterators, and the suffix patterns are paired with the slice starting at len - suffix.len().'
 )
 
 
